@@ -44,6 +44,7 @@ RULES = {
     "R4": "`for i in (a..b).rev() {` -> descending while loop",
     "R5": "consuming map iteration `for (k, v) in M {` -> `for (k__r, v__r) in M.iter() { let k = *k__r; let v = *v__r;` (M dead afterwards; value type made Copy in the assembled file, so the copy equals the moved value)",
     "R7": "error-constructor expression `ParseError::X {..}` -> opaque `mk_err()`",
+    "R15": "`E.and_then(|row| row.get(I)).unwrap_or(&0)` -> stub `get_or_zero(E, I)`",
     "R17": "`E.parse::<T>()` -> stub `parse_T(E)` with an unconstrained result",
     "R18": "`E.map_err(|_| C)?` -> `match E { Ok(v) => v, Err(_) => return Err(C) }`",
     "R9": "`E as <int>` -> `#[verifier::truncate] (E as <int>)` (Rust `as` is truncation)",
@@ -172,6 +173,11 @@ def apply_common_rules(text, ed, rules, log, where):
                 else:
                     ed.replace(toks[p2].start, toks[n1].end, f"{pre}_{toks[p2].text}_arr(")
                 log.append(("R14", where, text[toks[p2].start:toks[e].end][:80]))
+    if "R15" in rules:
+        # `E.and_then(|row| row.get(IDX)).unwrap_or(&0)` -> `get_or_zero(E, IDX)`; a leading `*` deref is kept
+        for m in re.finditer(r"(\w+)\s*\.and_then\(\|(\w+)\|\s*\2\.get\(([^()]+)\)\)\s*\.unwrap_or\(&0\)", text):
+            ed.replace(m.start(), m.end(), f"get_or_zero({m.group(1)}, {m.group(3)})")
+            log.append(("R15", where, m.group(0)[:80].replace("\n", " ")))
     if "R18" in rules:
         # `E.map_err(|_| C)?` -> `(match E { Ok(v__) => v__, Err(_) => return Err(C) })` (same error type: `?` adds no conversion)
         for i, t in enumerate(toks):
